@@ -71,6 +71,14 @@ class C03(PropCheck):
                     continue
                 sec2.add(line, 'ok', meta=meta, nontrivial=len(meta['items']) >= 2, tags=tags)
 
+    def classify(self, d):
+        if d['section'] == 'wide-geometry':
+            return wide_trace.explain_fits(d['meta'])
+        return None
+
+    def finding_replays(self):
+        return {'table-in-columns-rows-overflow': table_in_columns_overflow}
+
     def judge(self, d):
         if d['section'] == 'wide-geometry':
             return (f'page {d["meta"]["page_index"]}: in-flow items {d["model"]} end below the content box bottom '
@@ -103,6 +111,19 @@ class C03(PropCheck):
             out = pm_corr.real_line(doc)
             return geometry_violation(doc, out) or pm_corr.progress_violation(doc, out)
         return None
+
+
+def table_in_columns_overflow():
+    """A table in a multi-column container near the page bottom: rows placed below the page content box."""
+    import json
+    from vlib.paths import CORPUS
+    docs.quiet()
+    document = docs.render(json.loads((CORPUS / 'C03' / 'table_in_columns_overflow.json').read_text())['html'])
+    for page in document.pages:
+        bottom, items = wide_trace.fit_items(page)
+        if any(b > bottom * (1 + Fraction(1, 10**9)) and not first for b, first in items):
+            return True
+    return False
 
 
 PROP = C03()
